@@ -34,7 +34,7 @@ man = {
     "hooks": {"guard": "transparencies_stretto_verif",
               "enable": "RUSTFLAGS=\"--cfg transparencies_stretto_verif\" cargo build (the harness crate path-depends on /repo)",
               "baseline_off_cmd": "cd /repo && CARGO_NET_OFFLINE=true cargo test --workspace --no-fail-fast --offline",
-              "source_commits": ["b239f7a", "2faf300", "351b656"], "add_only": False},
+              "source_commits": ["b239f7a", "2faf300", "351b656", "52d1b36"], "add_only": False},
     "engines": [{"name": "coq-model+correspondence", "path": "/verif/vcheck", "serves_properties": [c['property_id'] for c in checks],
                  "kind_free_text": "Coq 8.16 development in /verif/theories (model + theorems), extracted to OCaml (model/), compared step by step with the real code driven by /verif/harness"}],
     "checks": checks,
